@@ -342,6 +342,18 @@ func init() {
 			}
 			return conc(64, ^uint64(0))
 		},
+		"internal/bytealg.CountString": func(m *Machine, c *frame, a []value) value {
+			return countBytes(a[0].(*String).b, a[1].(Scalar))
+		},
+		"internal/bytealg.Count": func(m *Machine, c *frame, a []value) value {
+			sl := a[0].(Slice)
+			n := m.concLen(sl.len, "Count len")
+			bs := make([]Scalar, n)
+			for k := range bs {
+				bs[k] = m.sliceElem(sl, k).(Scalar)
+			}
+			return countBytes(bs, a[1].(Scalar))
+		},
 		"internal/abi.NoEscape": func(m *Machine, c *frame, a []value) value { return a[0] },
 		"internal/abi.Escape":   func(m *Machine, c *frame, a []value) value { return a[0] },
 		"unsafe.String":         nil,
@@ -575,3 +587,22 @@ type byteAppendSite struct{ ssa.CallInstruction }
 func (byteAppendSite) Common() *ssa.CallCommon { return byteAppendCommon }
 
 var byteAppendCommon = &ssa.CallCommon{Args: []ssa.Value{ssa.NewConst(nil, types.NewSlice(types.Typ[types.Uint8]))}}
+
+// countBytes: the number of elements equal to ch, as one term.
+func countBytes(bs []Scalar, ch Scalar) Scalar {
+	n := uint64(0)
+	sum := tConst(64, 0)
+	for _, b := range bs {
+		if b.sym == nil && ch.sym == nil {
+			if b.c == ch.c {
+				n++
+			}
+			continue
+		}
+		sum = tBV("bvadd", sum, tIte(tEq(b.term(8), ch.term(8)), tConst(64, 1), tConst(64, 0)))
+	}
+	if sum.op == "const" {
+		return conc(64, n+sum.cv)
+	}
+	return fromTerm(tBV("bvadd", sum, tConst(64, n)))
+}
